@@ -7,6 +7,8 @@ import sys
 import time
 
 VERIF = os.path.dirname(os.path.dirname(os.path.abspath(__file__)))
+# experiments on seeded worktrees write their evidence/replays elsewhere so that /verif/evidence only ever holds runs against /repo
+OUT = os.environ.get("VERIF_OUT") or VERIF
 
 EXIT_OK, EXIT_VIOLATION, EXIT_INCONCLUSIVE = 0, 1, 2
 
@@ -69,7 +71,7 @@ class Report:
         for v in self.violations:
             if v["site"] == site:
                 return v["replay"]
-        d = os.path.join(VERIF, "replays", self.prop)
+        d = os.path.join(OUT, "replays", self.prop)
         os.makedirs(d, exist_ok=True)
         path = os.path.join(d, f"{len(self.violations)}_{_slug(site)}.json")
         with open(path, "w") as f:
@@ -116,8 +118,8 @@ class Report:
             "coverage": cov, "assumptions": self.assumptions, "wall_s": round(wall, 2),
             "violations": len(self.violations),
         }
-        os.makedirs(os.path.join(VERIF, "evidence"), exist_ok=True)
-        with open(os.path.join(VERIF, "evidence", f"{self.prop}.json"), "w") as f:
+        os.makedirs(os.path.join(OUT, "evidence"), exist_ok=True)
+        with open(os.path.join(OUT, "evidence", f"{self.prop}.json"), "w") as f:
             json.dump(ev, f, indent=1, default=str)
         for k in self.known_hits:
             print(f"KNOWN-FINDING: property={self.prop} {k['site']} {k['what']}")
